@@ -340,74 +340,97 @@ def rule_b64_decode_law(prog, rep, rid='TB11'):
 
 
 def rule_hex_laws(prog, rep):
-    rep.rule('TB12', 'hex encoder: the two digit indexes of a byte are (b >> 4, b & 15), high digit first (all 256 bytes)')
-    rep.rule('TB13', 'hex decoder: the emitted byte is 16 * value(digit at +0) + value(digit at +1) for all 256 digit-value pairs')
+    """TB12: the two characters the hex encoder stores for a byte b are the hexadecimal digits of b >> 4 and b & 15, in that
+    order (the stored expressions - table look-ups or digit helpers - are tabulated for all 256 bytes).  TB13: the byte the
+    hex decoder stores is 16 * value(first char) + value(second char) for every pair of hexadecimal digit characters, and the
+    two characters are read at cursor offsets 0 and 1."""
+    rep.rule('TB12', 'hex encoder: the two characters stored for a byte are the hex digits of (b >> 4, b & 15), high digit first (all 256 bytes)')
+    rep.rule('TB13', 'hex decoder: the stored byte is 16 * value(char at +0) + value(char at +1) for all pairs of hex digit characters')
     f = prog.need_func('qhex_encode')
-    _CTX.update(prog=prog, unit=f.unit, tabs={})
     tabs = _tables(f)
-    t16 = [n for n, v in tabs.items() if len(v) == 16]
-    if len(t16) == 1:
-        subs = sorted(_subscripts_of(f, t16[0]), key=lambda x: (x.get('_line') or 0, x.get('_col') or 0))
-        if len(subs) == 2:
-            def leaf(e):
-                s = strip(e)
-                if s.get('kind') in ('ArraySubscriptExpr', 'UnaryOperator') and (s.get('kind') != 'UnaryOperator' or s.get('opcode') == '*') \
-                        and 'char' in (qtype(s) or ''):
-                    b = strip(children(s)[0])
-                    if (b.get('referencedDecl') or {}).get('name') not in tabs:
-                        return 'b'
-                return None
-            for j, sub in enumerate(subs):
-                try:
-                    fn = _fn(pyexpr(children(sub)[1], leaf), ['b'])
-                except NotEvaluable as ex:
-                    raise AnalysisBroken('qhex_encode: digit index cannot be evaluated (%s)' % ex)
-                bad = [b for b in range(256) if fn(b) != ((b >> 4) if j == 0 else (b & 15))]
-                rep.instance('TB12', 256)
-                rep.oblige('TB12', not bad, {'digit': j, 'index': canon(children(sub)[1])[:40]})
-                if bad:
-                    rep.violation('TB12', f, sub.get('_line'), 'digit%d' % j, 'hex digit %d of a byte is computed as %s: wrong for byte 0x%02x'
-                                  % (j, canon(children(sub)[1])[:40], bad[0]))
+    _CTX.update(prog=prog, unit=f.unit, tabs={k: v for k, v in tabs.items() if len(v) in (16, 256)})
+    stores = [x for x in walk(f.body) if x.get('kind') == 'BinaryOperator' and x.get('opcode') == '='
+              and strip_parens(children(x)[0]).get('kind') == 'UnaryOperator' and strip_parens(children(x)[0]).get('opcode') == '*'
+              and int_value(children(x)[1]) != 0]
+    loops = [x for x in walk(f.body) if x.get('kind') in ('ForStmt', 'WhileStmt')]
+    stores = [x for x in stores if any(any(y is x for y in walk(l)) for l in loops)]
+    if len(stores) == 2:
+        def leaf(e):
+            s0 = strip(e)
+            if s0.get('kind') == 'ArraySubscriptExpr':
+                b = strip(children(s0)[0])
+                if (qtype(b) or '').rstrip().endswith('*') and (b.get('referencedDecl') or {}).get('name') not in tabs:
+                    return 'b'
+            if s0.get('kind') == 'UnaryOperator' and s0.get('opcode') == '*':
+                return 'b'
+            return None
+        for j_, st in enumerate(sorted(stores, key=lambda x: (x.get('_line') or 0, x.get('_col') or 0))):
+            try:
+                fn = _fn(pyexpr(children(st)[1], leaf), ['b'])
+                bad = []
+                for b in range(256):
+                    ch = fn(b) & 0xff
+                    want = (b >> 4) if j_ == 0 else (b & 15)
+                    if chr(ch) not in '0123456789abcdef' or int(chr(ch), 16) != want:
+                        bad.append(b)
+            except NotEvaluable as ex:
+                raise AnalysisBroken('qhex_encode: stored digit cannot be evaluated (%s)' % ex)
+            rep.instance('TB12', 256)
+            rep.oblige('TB12', not bad, {'digit': j_, 'stores': canon(children(st)[1])[:50]})
+            if bad:
+                rep.violation('TB12', f, st.get('_line'), 'digit%d' % j_, 'hex digit %d of a byte is stored as %s: wrong for byte 0x%02x'
+                              % (j_, canon(children(st)[1])[:40], bad[0]))
     f = prog.need_func('qhex_decode')
-    _CTX.update(prog=prog, unit=f.unit, tabs={})
     tabs = _tables(f)
-    t256 = [n for n, v in tabs.items() if len(v) == 256]
-    if len(t256) == 1:
-        from .dataflow import offset_split
-        for x in walk(f.body):
-            if x.get('kind') == 'BinaryOperator' and x.get('opcode') == '=':
-                l = strip_parens(children(x)[0])
-                subs = [y for y in walk(children(x)[1]) if y.get('kind') == 'ArraySubscriptExpr'
-                        and (strip(children(y)[0]).get('referencedDecl') or {}).get('name') == t256[0]]
-                if l.get('kind') != 'UnaryOperator' or l.get('opcode') != '*' or len(subs) != 2:
-                    continue
-                offs = {}
-                for y in subs:
-                    d = [z for z in walk(children(y)[1]) if z.get('kind') == 'UnaryOperator' and z.get('opcode') == '*']
-                    if not d:
-                        raise AnalysisBroken('qhex_decode: look-up index does not read the cursor')
-                    _b, off = offset_split(children(d[0])[0])
-                    offs[id(y)] = off.as_const()
-                if sorted(offs.values()) != [0, 1]:
-                    rep.instance('TB13')
-                    rep.oblige('TB13', False)
-                    rep.violation('TB13', f, x.get('_line'), 'offsets', 'the two digit look-ups read the cursor at offsets %s, expected 0 and 1' % sorted(offs.values()))
-                    continue
+    _CTX.update(prog=prog, unit=f.unit, tabs={k: v for k, v in tabs.items() if len(v) in (16, 256)})
+    from .dataflow import offset_split
+    for x in walk(f.body):
+        if x.get('kind') != 'BinaryOperator' or x.get('opcode') != '=':
+            continue
+        l = strip_parens(children(x)[0])
+        if l.get('kind') != 'UnaryOperator' or l.get('opcode') != '*' or int_value(children(x)[1]) == 0:
+            continue
+        # the characters read from the input cursor inside the stored expression
+        reads = {}
+        for y in walk(children(x)[1]):
+            off = None
+            if y.get('kind') == 'UnaryOperator' and y.get('opcode') == '*':
+                _b, o = offset_split(children(y)[0])
+                off = o.as_const()
+            elif y.get('kind') == 'ArraySubscriptExpr' and (qtype(strip(children(y)[0])) or '').rstrip().endswith('*') \
+                    and (strip(children(y)[0]).get('referencedDecl') or {}).get('name') not in tabs:
+                off = int_value(children(y)[1])
+            if off is not None:
+                reads[id(y)] = off
+        if not reads:
+            continue
+        rep.instance('TB13')
+        if sorted(set(reads.values())) != [0, 1]:
+            rep.oblige('TB13', False)
+            rep.violation('TB13', f, x.get('_line'), 'offsets', 'the decoder reads the cursor at offsets %s for one byte, expected 0 and 1'
+                          % sorted(set(reads.values())))
+            continue
 
-                def leaf(e):
-                    s = strip(e)
-                    if id(s) in offs:
-                        return 'n%d' % offs[id(s)]
-                    return None
-                try:
-                    fn = _fn(pyexpr(children(x)[1], leaf), ['n0', 'n1'])
-                except NotEvaluable as ex:
-                    raise AnalysisBroken('qhex_decode: emitted expression cannot be evaluated (%s)' % ex)
-                bad = [(a, b) for a in range(16) for b in range(16) if (fn(a, b) & 0xff) != (a * 16 + b)]
-                rep.instance('TB13', 256)
-                rep.oblige('TB13', not bad, {'emits': canon(children(x)[1])[:70]})
-                if bad:
-                    rep.violation('TB13', f, x.get('_line'), 'byte', 'hex decoder emits %s: wrong for digit values %s' % (canon(children(x)[1])[:50], bad[0]))
+        def leaf(e):
+            s0 = strip(e)
+            if id(s0) in reads:
+                return 'c%d' % reads[id(s0)]
+            if id(e) in reads:
+                return 'c%d' % reads[id(e)]
+            return None
+        try:
+            fn = _fn(pyexpr(children(x)[1], leaf), ['c0', 'c1'])
+            bad = []
+            for a in HEXDIG:
+                for b in HEXDIG:
+                    if (fn(ord(a), ord(b)) & 0xff) != int(a + b, 16):
+                        bad.append(a + b)
+        except NotEvaluable as ex:
+            raise AnalysisBroken('qhex_decode: stored byte cannot be evaluated (%s)' % ex)
+        rep.instance('TB13', len(HEXDIG) ** 2)
+        rep.oblige('TB13', not bad, {'stores': canon(children(x)[1])[:70]})
+        if bad:
+            rep.violation('TB13', f, x.get('_line'), 'byte', 'hex decoder stores %s: wrong for the digit pair "%s"' % (canon(children(x)[1])[:50], bad[0]))
 
 
 HEXDIG = '0123456789abcdefABCDEF'
@@ -501,6 +524,12 @@ def step_eval(prog, f, body, rd, wr, window):
     env = {}
     out = []
     adv = [0]
+    rd_alias = {rd: 0}          # names that denote the read cursor (+ offset): the cursor itself, helper parameters bound to it
+    wr_alias = {wr}
+
+    class _Return(Exception):
+        def __init__(self, v):
+            self.v = v
 
     def rd_byte(off):
         k = adv[0] + off
@@ -520,8 +549,8 @@ def step_eval(prog, f, body, rd, wr, window):
     def cursor_off(e):
         """offset k if e designates (rd + k), else None"""
         s = strip(e)
-        if s.get('kind') == 'DeclRefExpr' and (s.get('referencedDecl') or {}).get('name') == rd:
-            return 0
+        if s.get('kind') == 'DeclRefExpr' and (s.get('referencedDecl') or {}).get('name') in rd_alias:
+            return rd_alias[(s.get('referencedDecl') or {}).get('name')]
         if s.get('kind') == 'BinaryOperator' and s.get('opcode') in ('+', '-'):
             a, b = children(s)
             ka, kb = cursor_off(a), int_value(b)
@@ -547,6 +576,17 @@ def step_eval(prog, f, body, rd, wr, window):
             op = s.get('opcode')
             c = children(s)[0]
             if op == '*':
+                ci = strip(c)
+                if ci.get('kind') == 'UnaryOperator' and ci.get('opcode') in ('++', '--') and \
+                        (strip(children(ci)[0]).get('referencedDecl') or {}).get('name') == rd:
+                    step = 1 if ci['opcode'] == '++' else -1
+                    if ci.get('isPostfix'):
+                        v_ = as_char(rd_byte(0), s)
+                        adv[0] += step
+                    else:
+                        adv[0] += step
+                        v_ = as_char(rd_byte(0), s)
+                    return v_
                 off = cursor_off(c)
                 if off is None:
                     raise _Stop('deref')
@@ -562,7 +602,7 @@ def step_eval(prog, f, body, rd, wr, window):
                 if nm == rd:
                     adv[0] += 1 if op == '++' else -1
                     return 0
-                if nm == wr:
+                if nm in wr_alias:
                     return 0
                 if nm in env:
                     old = env[nm]
@@ -608,9 +648,39 @@ def step_eval(prog, f, body, rd, wr, window):
             nm = prog.callee_name(s)
             g = prog.resolve_name(f.unit, nm) if nm else None
             if g is not None and getattr(g, 'body', None) is not None:
-                r = run_function(prog, g, [ev(a) for a in children(s)[1:]], {})
-                if r is None:
-                    raise _Stop('helper ' + nm)
+                args = children(s)[1:]
+                cursor_args = [a for a in args if cursor_off(a) is not None or
+                               (strip(a).get('kind') == 'DeclRefExpr' and (strip(a).get('referencedDecl') or {}).get('name') in wr_alias)]
+                if not cursor_args:
+                    r = run_function(prog, g, [ev(a) for a in args], {})
+                    if r is None:
+                        raise _Stop('helper ' + nm)
+                    return r
+                # a helper that works on the cursors: interpreted in place, its parameters bound to the cursors
+                saved_env, saved_rd, saved_wr = dict(env), dict(rd_alias), set(wr_alias)
+                try:
+                    for p_, a in zip(g.params, args):
+                        pn = p_.get('name')
+                        off = cursor_off(a)
+                        an = (strip(a).get('referencedDecl') or {}).get('name') if strip(a).get('kind') == 'DeclRefExpr' else None
+                        if off is not None:
+                            rd_alias[pn] = off
+                        elif an in wr_alias:
+                            wr_alias.add(pn)
+                        else:
+                            env[pn] = ev(a)
+                    try:
+                        run(g.body)
+                        r = 0
+                    except _Return as rr:
+                        r = rr.v
+                finally:
+                    for k_ in list(env):
+                        if k_ not in saved_env:
+                            del env[k_]
+                    env.update(saved_env)
+                    rd_alias.clear(); rd_alias.update(saved_rd)
+                    wr_alias.clear(); wr_alias.update(saved_wr)
                 return r
             raise _Stop('call ' + str(nm))
         if k == 'CStyleCastExpr':
@@ -628,7 +698,7 @@ def step_eval(prog, f, body, rd, wr, window):
                 nm = (strip(children(inner)[0]).get('referencedDecl') or {}).get('name')
             elif inner.get('kind') == 'DeclRefExpr':
                 nm = (inner.get('referencedDecl') or {}).get('name')
-            if nm == wr:
+            if nm in wr_alias:
                 out.append(val & 0xff)
                 return val
             raise _Stop('store')
@@ -690,7 +760,9 @@ def step_eval(prog, f, body, rd, wr, window):
             raise _Continue()
         elif k == 'NullStmt':
             pass
-        elif k in ('ForStmt', 'WhileStmt', 'DoStmt', 'ReturnStmt', 'GotoStmt'):
+        elif k == 'ReturnStmt':
+            raise _Return(ev(children(st)[0]) if children(st) else 0)
+        elif k in ('ForStmt', 'WhileStmt', 'DoStmt', 'GotoStmt'):
             raise _Stop(k)
         else:
             ev(st)
@@ -699,7 +771,7 @@ def step_eval(prog, f, body, rd, wr, window):
             run(body)
         except (_Continue, _Break):
             pass
-    except (_Stop, KeyError, TypeError):
+    except (_Stop, _Return, KeyError, TypeError):
         return None
     return out, adv[0]
 
